@@ -25,7 +25,7 @@ CHECKS = {
 _GEN_NOTE = ("Trusted: TLC; RDKit for token chemistry (atoms, bonds, attachment atoms of descriptors written as dummy atoms, masses) and for reading "
              "the generated molecule; the recording/scripted numpy Generator subclass; the tap on Distribution.draw_mw. Bounds: exhaustive choice "
              "trees are capped per instance (quick 4 000 nodes, thorough 40 000); larger instances are validated on recorded random streams only.")
-_GEN_TECH = "TLA+ spec (Generate.tla) model-checked with TLC; implementation choice trees and random-stream traces validated against it by TLC (trace-tree validation)"
+_GEN_TECH = "TLA+ spec (Generate.tla) model-checked with TLC; implementation choice trees and random-stream traces validated against it by TLC (trace-tree validation); TLC-generated behaviours replayed into the implementation"
 for _p, _t in {
     "C04": "Design: TLC checks on GenerateMC (all choice sequences x target grid per instance) that every bond joins two unused, mutually compatible descriptors with their order (invariants IBonds, action property AttachSound). Conformance: the implementation's complete choice tree of ~70 bounded instances (all archetypes, negative instances whose transition lists point at incompatible descriptors) and recorded random streams of long instances are validated node by node against the spec; at every return the generated molecule must equal, atom by atom and bond by bond, the molecule the spec's residue tree denotes.",
     "C05": "Design: TLC checks TreeInv / Connected / MassInv on every reachable state of GenerateMC. Conformance: every returned molecule of every explored schedule must equal the spec's assembly of whole token copies (element, charge, isotope, aromaticity, hydrogen count per atom, internal bonds, one bond per attachment), be sanitisable, and have mass = sum of residue masses; chemistry-rich token families (aromatic, charged, bracket, isotopic, polycyclic).",
@@ -33,7 +33,9 @@ for _p, _t in {
     "C07": "Design: TLC checks StopRule and GrowOnlyBelowTarget on GenerateMC over a target grid bracketing every cumulative mass (+-1 mDa, equal, negative, zero). Conformance: targets forced through the library's own draw (zero-width gaussian) incl. exact-equality floats, negative and sub-unit targets, second blocks and end-group starts; the spec keeps the branch of the stop comparison that was not taken, so a divergence of the stop rule is told apart from a divergence of a selection law (an explanation by the branch not taken is dropped when the very next event refutes it). Refinement: TLC checks on every model instance that GenerateMC implements the abstract accumulation machine spec/FirstCrossing.tla (PROPERTY ImplementsFirstCrossing of spec/GenerateRefinesFC.tla), whose theorem - every finished accumulation stopped at the first partial sum exceeding its limit - is proved for all masses and targets by the TLA+ proof system (spec/proofs/FirstCrossingProofs.tla, re-proved in every run); the same inductive invariant is discharged symbolically by Apalache (spec/apalache/FirstCrossingApa.tla: holds initially, preserved by every step). The drawn target of a zero-width law must be the written value (the observation point is what the draw returns).",
     "C08": "Design: LawNormalised on every decision state. Conformance: at EVERY call of rng.choice on every explored path the candidate list and the probability vector (as exact fractions) must equal the spec's candidates and Law / TransLaw, options of probability zero are never taken, for all eight decision kinds x {forced, uniform, zero-next-to-nonzero, unequal} (census enforced as a vacuity guard); complete trees additionally have recorded probability mass exactly 1, so the exact distribution over molecules equals the spec's.",
 }.items():
-    CHECKS[_p] = dict(category="model_checking", text=_t, design_ref="DESIGN.md 4/" + _p, note=_GEN_NOTE, technique=_GEN_TECH)
+    CHECKS[_p] = dict(category="model_checking", text=_t + " Specification -> code: TLC also GENERATES the schedules - every distinct terminal state of the machine with its decision history "
+                      "(GenerateMCH under VIEW; simulation mode for targets of hundreds of units in the thorough tier) - and the real code is stepped through each of them (scripted decisions, "
+                      "forced targets); what it did is judged by the same trace validation.", design_ref="DESIGN.md 4/" + _p, note=_GEN_NOTE, technique=_GEN_TECH)
 
 CHECKS["C02"] = dict(
     category="model_checking",
